@@ -92,64 +92,36 @@ def run(model: Model, rep: Report, tier: str) -> None:
         "algorithm and threading of the current distribution; the numerical identity itself is the paper's soundness theorem + C14 + C13."
     )
     rep.trusted_base = ["Shpitser & Pearl 2006, Theorem 5 (soundness of ID)", "C14 (graph primitives)", "C13 (Sum.safe / Product.safe / P)", "districts of G[V∖X] refine districts of G"]
-    rep.floors = {"R1.0": 2, "R1.1": 7, "R1.2": 6}
+    rep.floors = {"R1.0": 2, "R1.1": 1}
     r1_0(model, rep)
     # the public wrapper hands ID the caller's own graph and query (a pre-pruned graph changes which nodes line 3 can turn into treatments)
     from . import c02
     c02.r2_2(model, rep)
-    f, ev, ident, paths, impl, results, sa, ref = match_lines(model, rep)
-    words = {
-        "line1": "X = ∅  →  Σ_{V∖Y} P",
-        "line2": "V∖An(Y)_G ≠ ∅  →  ID(Y, X∩An(Y), Σ_{V∖An(Y)} P, G[An(Y)])",
-        "line3": "W = (V∖X)∖An(Y)_{G_X̄} ≠ ∅  →  ID(Y, X∪W, P, G)",
-        "line4": "C(G∖X) has several districts  →  Σ_{V∖(Y∪X)} Π_i ID(S_i, V∖S_i, P, G)",
-        "line5": "C(G) = {V}  →  unidentifiable",
-        "line6": "S ∈ C(G)  →  Σ_{S∖Y} Π_{v∈S} P(v | v_π^{(<v)})",
-        "line7": "S ⊊ S' ∈ C(G)  →  ID(Y, X∩S', Π_{v∈S'} P(v | v_π^{(<v)}), G[S'])",
-    }
-    for name, (best, rf, rv) in results.items():
-        cons = construct(f, name)
-        if best is None:
-            rep.refuted("R1.1", cons, f"no path of identify() implements {name}: {words[name]}", loc(f))
-            continue
-        it, same_val, same_cond = best
-        p = it["path"]
-        sample = {"published": words[name], "guard": short(show_formula(it["formula"]), 300), "action": short(show(it["value"]) if not isinstance(it["value"], str) else it["value"], 400)}
-        if same_val and same_cond:
-            rep.proven("R1.1", cons, loc=loc(f, p.line), sample=sample)
-        elif same_val:
-            try:
-                _, row, _ = compare(it["formula"], rf)
-                rowtxt = show_row(row) if row else ""
-            except Exception:  # noqa: BLE001
-                rowtxt = ""
-            rep.refuted("R1.1", cons, f"{name} ({words[name]}) is taken under a different guard than published (or tested in a different order): "
-                        f"guards differ when [{short(rowtxt, 300)}]; implementation guard: {short(show_formula(it['formula']), 300)}", loc(f, p.line), sample=sample)
-        else:
-            rep.refuted("R1.1", cons, f"{name} ({words[name]}): the action differs from the published one. implementation: "
-                        f"{short(show(it['value']) if not isinstance(it['value'], str) else it['value'], 420)}  published: {short(show(rv) if not isinstance(rv, str) else rv, 420)}", loc(f, p.line), sample=sample)
-    # extra live branches (returns that match no line) are deviations too
-    for it in impl:
-        if it["matched"] is None and it["kind"] == "return" and not any(best and best[0] is it for best, _, _ in results.values()):
-            rep.refuted("R1.1", construct(f, f"extra-branch@{short(show_formula(it['formula']), 60)}"), "identify() has a returning branch that corresponds to no published line: "
-                        + short(show(it["value"]), 200), loc(f, it["path"].line))
-    # ---- R1.2 dependence on the current distribution
-    P = ref.P
-    for name, (best, rf, rv) in results.items():
-        if name == "line5" or best is None:
-            continue
-        it = best[0]
-        p = it["path"]
-        reads = any(s == P for s in subterms(p.value)) or any(s == P for c in p.conds for s in subterms(c))
-        cons = construct(f, f"{name}-estimand")
-        if reads:
-            rep.proven("R1.2", cons, loc=loc(f, p.line))
-        else:
-            rep.refuted("R1.2", cons,
-                        f"{name} never reads identification.estimand: its conditionals P(v | predecessors) are taken from the observational joint, but after a line-7 "
-                        "step the distribution in hand is Q[S'] (a product of conditionals), whose conditionals differ; two calls differing only in the estimand return the same expression",
-                        loc(f, p.line))
-    rep.stats.update({"paths_of_identify": len(paths), "functions_inlined": len(ev.inlined), "call_sites_resolved": ev.calls_resolved, "call_sites_unresolved": ev.calls_unresolved})
+    r1_1(model, rep)
+
+
+def r1_1(model: Model, rep: Report, rule: str = "R1.1") -> None:
+    """identify() against Figure 3 written out in yv/refs/c01_ref.py: both are evaluated by the same evaluator (line_N helpers, _conditional and
+    any other private helper inlined; graph operations and DSL constructors primitive) and compared path pair by path pair under the joint
+    guard -- guards (= order of tests), actions, recursive calls with their four arguments, the distribution in hand threaded everywhere."""
+    from ..refcmp import compare_with_reference, load_reference
+    from .common import graph_rewrite, rewriter
+    from .idcommon import ID_PRIM_METHODS, ID_PRIMS, id_rewrite
+
+    if "yvref.c01" not in model.modules:
+        load_reference(model, "yvref.c01", "c01_ref.py")
+    sa = SetAlg(rewriter(graph_rewrite, id_rewrite))
+    f, verdict, detail, sample = compare_with_reference(
+        model, IDENTIFY, "yvref.c01.id_algorithm", {"identification": ("cls", IDENT)},
+        lambda: Evaluator(model, primitives=set(ID_PRIMS) | {"y0.dsl.P"}, prim_methods=set(ID_PRIM_METHODS)), sa)
+    sample["definition"] = "Shpitser & Pearl 2006, Figure 3, lines 1-7 (yv/refs/c01_ref.py)"
+    cons = construct(f, "lines-1-7")
+    if verdict == "PROVEN":
+        rep.proven(rule, cons, loc=loc(f), sample=sample)
+    elif verdict == "REFUTED":
+        rep.refuted(rule, cons, "identify() deviates from the published ID algorithm: " + short(detail, 900), loc(f), sample=sample)
+    else:
+        rep.unknown(rule, cons, detail, loc(f))
 
 
 def r1_0(model: Model, rep: Report) -> None:
